@@ -112,6 +112,47 @@ CLAIMS["C01"] = (
     "request sequence with the grammar for every byte string (httparse, Uri) is not decided.",
 )
 
+CLAIMS["C06"] = (
+    "4/C06",
+    "must-pass-through / guarded-site on timer-expiry edges and flag effects; assumption-conditioned reachability for the drain clauses",
+    "Decides ONLY the event->effect half: expiry edges of the head, keep-alive and shutdown timers lead to 408+SHUTDOWN, "
+    "SHUTDOWN + bounded shutdown, LINGER->SHUTDOWN or DisconnectTimeout; timers are armed/cleared on the right edges and "
+    "a running linger deadline is not re-armed; the graceful signal sets DRAINING and clears keep-alive; under DRAINING "
+    "an idle connection drops its queue and decodes nothing while an in-flight request keeps being read; signal and "
+    "timers are polled before the branch choice; arming polls the timer with the task context. Every clause about WHEN "
+    "(not before the deadline, never outlasting the timeout) depends on runtime Instants and is not decided.",
+)
+CLAIMS["C08"] = (
+    "4/C08",
+    "guarded-site, must-pass-through and edge-set reachability on the pre-transform coroutine CFG of handle_response; header/status table extraction",
+    "Decides on every path of the h2 response coroutine: no capacity wait for an empty chunk (found and fixed: stream "
+    "stalled), the frame sent is the front min(len, cap) of the chunk and the next chunk is polled only when the current "
+    "one is empty, END_STREAM is sent on every exit after body exhaustion (a computed flag must count exactly the bytes "
+    "framed), HEAD/eof return before any body poll using the size as adjusted for the status; connection-specific "
+    "headers are never copied, 100/102/204 suppress the body, content-length only from a Sized body; request side "
+    "releases capacity per chunk. The h2 crate's own behaviour and stream independence are not decided.",
+)
+CLAIMS["C09"] = (
+    "4/C09",
+    "field effect sets over route vectors, iteration-direction and first-accept checks, sibling agreement, provenance of regex fragments",
+    "Decides: route lists are iterated front to back and the first accepted candidate is returned; no order-changing "
+    "operation touches any route/service vector on the build pipeline; path parameters are recorded only after the "
+    "guards accepted; the app-level and scope-level routers perform the same guarded effects and require ALL guards; "
+    "the URL quoter protects '/', '%' and '+' and pattern literals reach the regex only escaped (so decoding or a "
+    "metacharacter cannot move a segment boundary); data containers are pushed only while descending, cut to the root on "
+    "recycling, and looked up innermost-first. 404/405 selection and concrete-table semantics are not decided.",
+)
+CLAIMS["C10"] = (
+    "4/C10",
+    "per-arm call-set agreement between sibling matchers, regex-fragment provenance, must-pass-through for the boundary suffix, constants, unit-step scan check",
+    "Decides: the three matchers cover all pattern types with the same matcher family per type and take the matched "
+    "length from capture group 1; user pattern text reaches the regex only through escape or parse_param, the regex is "
+    "anchored, grouped, and ends in '$' / '(/|$)' on every non-tail path; static matching accepts only an empty "
+    "remainder or (prefix) a '/' remainder; default segment languages and flags are the documented constants; the "
+    "percent-decoder scans every position, needs two hex digits and skips the protected set. That the regex matches "
+    "exactly its language, captured values, and the build/match round trip are not decided.",
+)
+
 NOT_YET = "check not built yet in this round (planned per DESIGN.md section 4); not claimed until it exists"
 
 NOT_APPLICABLE = {}
